@@ -68,7 +68,23 @@ OP_SPECS = [
     ["DiagonalOp", [], {"dim2": 2}],
     ["TransposeOp", [], {"axis2": 1}],
     ["TransposeOp", [], {"axis2": 0}],
+    # wrapped callables: "@shift" / "@scale" name module-level functions (the same object every time)
+    ["WrappedTransformOp", [], {"fn": "@shift"}],
+    ["WrappedTransformOp", [], {"fn": "@shift", "validate_args": False}],
+    ["WrappedTransformOp", [], {"fn": "@shift", "validate_args": True}],
+    ["WrappedTransformOp", [], {"fn": "@scale", "validate_args": False}],
 ]
+
+
+def _shift(x):  # plain callables standing in for backend transforms
+    return x + 1.0
+
+
+def _scale(x):
+    return x * 2.0
+
+
+_CALLABLES = {"@shift": _shift, "@scale": _scale}
 
 
 def _op_param(x):
@@ -91,7 +107,7 @@ def gen_recipe(r):
     if c < 0.10:
         return ["var", r.choice(NAMES + ["x"]), r.choice([["bint", 2], ["bint", 3], ["real"], ["reals", [2]], ["bint_shaped", 2, [3]], ["bint_shaped", 3, [2]]])]
     if c < 0.18:
-        return ["num", r.choice([1, 1.0, True, 0, 0.5, 2, 2.0])]
+        return ["num", r.choice([1, 1.0, True, 0, 0.5, 2, 2.0, ["np", "float64", 0.5], ["np", "float64", 2.0], ["np", "int64", 2], ["np", "float32", 0.5]])]
     if c < 0.36:
         return ["tensor", r.randrange(3), r.choice([["i"], ["i", "j"], ["j", "i"], []])]
     if c < 0.48:
@@ -365,7 +381,10 @@ class Sim:
             dom = self.domain(recipe[2])
             return (lambda: f.Variable(recipe[1], dom)), (f.Variable, (recipe[1], dom))
         if t == "num":
-            return (lambda: f.Number(recipe[1])), None
+            v = recipe[1]
+            if isinstance(v, list):  # a numpy scalar: equal to the python number, and must intern with it
+                v = getattr(self.np, v[1])(v[2])
+            return (lambda: f.Number(v)), None
         if t == "tensor":
             arr = self.slots[recipe[1]]
             names = recipe[2]
@@ -415,7 +434,11 @@ class Sim:
             kw = recipe[1][2] if len(recipe[1]) > 2 else {}
             cls = getattr(ops, cname)
             args = tuple(_op_param(p) for p in params)
-            return (lambda: cls(*args, **kw)), ("op", json.dumps(recipe[1]))
+            kw = {k: _CALLABLES.get(v, v) if isinstance(v, str) else v for k, v in kw.items()}
+            reqkey = dict(recipe[1][2]) if len(recipe[1]) > 2 else {}
+            if cname == "WrappedTransformOp":
+                reqkey.setdefault("validate_args", True)  # the default, spelled out: an equal request
+            return (lambda: cls(*args, **kw)), ("op", json.dumps([cname, params, reqkey], sort_keys=True))
         if t == "ptype":
             name = recipe[1]
             if name == "Tensor":
@@ -510,6 +533,7 @@ class Sim:
         if ev["recipe"][0] == "op":
             cname, params = ev["recipe"][1][:2]
             kw = ev["recipe"][1][2] if len(ev["recipe"][1]) > 2 else {}
+            kw = {k: _CALLABLES.get(v, v) if isinstance(v, str) else v for k, v in kw.items()}
             want = tuple(_op_param(p) for p in params) + tuple(kw.values())
             got = tuple(obj.defaults.values())[: len(params)] + tuple(obj.defaults.get(k) for k in kw)
             if type(obj).__name__ != cname or got != want:
